@@ -75,6 +75,10 @@ func TestGovcHarness_RandEnum(t *testing.T) {
 				if _, err := parser.ParseFile(token.NewFileSet(), "gen.go", code, 0); err != nil {
 					fail("generated code does not parse: %v", err)
 				}
+			} else if strings.Contains(code, "choix := [...]E{}") && strings.Contains(code, "rand.Intn(len(choix))") {
+				// recorded finding (not fatal: the other cases still run): the emitted function would panic when called
+				fmt.Printf("GOVC-FAIL {\"enum-without-exported-constant\":true,\"members\":%d} the emitted function draws from an empty array: rand.Intn(0) panics at run time\n", n)
+				t.Errorf("enum with %d unexported constants only: emitted generator indexes an empty array", n)
 			}
 			if !strings.Contains(code, "rand.Intn(2)") {
 				fail("union with two members: bound passed to rand.Intn is not 2")
@@ -115,12 +119,36 @@ type Square struct{ S int }
 
 func (*Square) isShape() {}
 
+// a member that gets the marker method by embedding
+type shapeTag struct{}
+
+func (shapeTag) isShape() {}
+
+type Ring struct {
+	shapeTag
+	R int
+}
+
+// not an enum: its only constant is unexported and opted out
+type Token string
+
+const defaultToken Token = "x" // gomacro:no-enum
+
+// fields marked to be skipped for data generation
+type Account struct {
+	Name   string
+	Secret string ` + "`gomacro-data:\"ignore\"`" + `
+	Count  int    ` + "`gomacro-data:\"ignore\"`" + `
+}
+
 type Row struct {
 	Local  Status
 	Remote smodels.Status
 	K      Kind
 	Sh     Shape
 	Sq     Square
+	Tk     Token
+	Acc    Account
 }
 `
 
@@ -168,7 +196,11 @@ func TestGovcHarness_RandPackages(t *testing.T) {
 	}
 	expect("Kind draws from exactly {K0, K1} (got {"+kindChoices+"})", kindChoices == "K0,K1")
 	// 3. only the types that implement the interface are drawn for a union
-	expect("the union Shape is drawn among 1 member", strings.Contains(code, "rand.Intn(1)") && !strings.Contains(code, "rand.Intn(2)"))
+	expect("the union Shape is drawn among its 3 members (Circle, Ring by embedding, shapeTag; not *Square)", strings.Contains(code, "rand.Intn(3)") && !strings.Contains(code, "rand.Intn(2)") && !strings.Contains(code, "rand.Intn(4)") && strings.Contains(code, "randRing(),"))
+	// a named string whose only constant is opted out is not an enum: no empty choice list
+	expect("Token is generated as a plain string, not as an enum", !strings.Contains(code, "[...]Token{"))
+	// fields tagged gomacro-data:\"ignore\" keep their zero value
+	expect("ignored data fields are not assigned", strings.Contains(code, "s.Name = ") && !strings.Contains(code, "s.Secret = ") && !strings.Contains(code, "s.Count = "))
 	// 4. same-named enums of two packages keep their own generators: each field is filled by a function
 	// returning the field's own type
 	retType := map[string]string{}
